@@ -22,6 +22,13 @@ fn main() {
         "globals" => run::globals_main(rest),
         "intr" => intr::main(rest),
         "host" => host::main(rest),
+        "dis" => {
+            // ad-hoc: print the bytecode the compiler emits for the source text given as argument
+            let mut e = run::make_engine("full");
+            let prog = e.emit_raw_program_no_path(rest.get(0).cloned().unwrap_or_default()).unwrap();
+            e.debug_print_build("dis".to_string(), prog).unwrap();
+            0
+        }
         other => {
             eprintln!("unknown sub-command {other}");
             2
